@@ -213,12 +213,12 @@ class JournalStorage(BaseStorage):
     def get_study_user_attrs(self, study_id: int) -> dict[str, Any]:
         with self._thread_lock:
             self._sync_with_backend()
-            return self._replay_result.get_study(study_id).user_attrs
+            return copy.deepcopy(self._replay_result.get_study(study_id).user_attrs)
 
     def get_study_system_attrs(self, study_id: int) -> dict[str, Any]:
         with self._thread_lock:
             self._sync_with_backend()
-            return self._replay_result.get_study(study_id).system_attrs
+            return copy.deepcopy(self._replay_result.get_study(study_id).system_attrs)
 
     def get_all_studies(self) -> list[FrozenStudy]:
         with self._thread_lock:
